@@ -85,6 +85,7 @@ type streamCase struct {
 	Procs     int          `json:"gomaxprocs,omitempty"`
 	Source    string       `json:"source,omitempty"` // "" harness reader | "eof-with-data" | "bytes.Reader@offset" | "os.File@offset"
 	Hdr       int          `json:"header_bytes,omitempty"`
+	PriorFail int          `json:"prior_fail_bytes,omitempty"` // history: an earlier call of the same workflow got only this many bytes
 }
 
 // openSource builds the source a case asks for over the given stream.
